@@ -17,11 +17,11 @@ TRACE_CONST = {"L": "0", "Variant": '"ok"'}
 
 TIER = {
     "quick": dict(L=4, kkt=[("csvc", 2, 3), ("oneclass", 2, 3), ("esvr", 2, 2)],
-                  gen=dict(MinSmall=3, MaxSmall=4, Seeds="{1, 2}", MedSizes="{12, 24}"),
-                  stride=dict(csvc=2, nusvc=2, oneclass=2, esvr=3, nusvr=2)),
+                  gen=dict(MinSmall=3, MaxSmall=4, Seeds="{1, 2, 3}", MedSizes="{12, 24}", Lite="TRUE"),
+                  stride=dict(csvc=2, nusvc=1, oneclass=1, esvr=2, nusvr=2, f32=1)),
     "thorough": dict(L=5, kkt=[("csvc", 4, 3), ("oneclass", 4, 3), ("esvr", 2, 3)],
-                     gen=dict(MinSmall=3, MaxSmall=5, Seeds="{1, 2, 3, 4, 5}", MedSizes="{12, 24, 40, 60}"),
-                     stride=dict(csvc=1, nusvc=1, oneclass=1, esvr=1, nusvr=1)),
+                     gen=dict(MinSmall=3, MaxSmall=5, Seeds="{1, 2, 3, 4}", MedSizes="{12, 24, 40, 60}", Lite="FALSE"),
+                     stride=dict(csvc=2, nusvc=2, oneclass=1, esvr=2, nusvr=3, f32=2)),
 }
 FAMS = '{"csvc", "nusvc", "oneclass", "esvr", "nusvr", "f32"}'
 
@@ -29,11 +29,12 @@ FAMS = '{"csvc", "nusvc", "oneclass", "esvr", "nusvr", "f32"}'
 def design_models(ctx):
     t = TIER[ctx.tier]
     vlib.mc_elem(ctx)
+    # (action coverage is asserted in the quick tier; the larger model runs without the coverage statistics)
     vlib.tlc_mc(ctx, "Smo", {"constants": {"L": str(t["L"]), "Variant": '"ok"'}, "invariants": SMO_INVS},
-                coverage_actions=SMO_ACTIONS)
+                coverage_actions=SMO_ACTIONS if ctx.quick else None)
     # the invariants are not vacuous: each seeded design bug of the pinned code violates one of them
     for variant, inv in SEEDED_DESIGN_BUGS.items():
-        rc, lines = vlib.tlc(ctx, "Smo", {"constants": {"L": "4", "Variant": '"%s"' % variant}, "invariants": SMO_INVS},
+        rc, lines = vlib.tlc(ctx, "Smo", {"constants": {"L": "3", "Variant": '"%s"' % variant}, "invariants": SMO_INVS},
                              workers=4, tag="Smo_bug_" + variant)
         if rc == 0 or not any(("Invariant %s is violated" % inv) in l for l in lines):
             raise vlib.ToolError("design model Smo: seeded design bug %s does not violate %s" % (variant, inv))
@@ -41,10 +42,11 @@ def design_models(ctx):
     for mode, g, maxsize in t["kkt"]:
         consts = {"Mode": '"%s"' % mode, "G": str(g), "MaxSize": str(maxsize)}
         vlib.tlc_mc(ctx, "MC_SmoKkt", {"constants": consts, "invariants": ["KktImpliesOptimal"]}, tag="MC_SmoKkt_" + mode)
-        rc, lines = vlib.tlc(ctx, "MC_SmoKkt", {"constants": consts, "invariants": ["NoKkt"]}, workers=4,
-                             tag="MC_SmoKkt_nv_" + mode)
-        if rc == 0 or not any("Invariant NoKkt is violated" in l for l in lines):
+        with open("%s/MC_SmoKkt_%s.out" % (ctx.work, mode)) as f:
+            acc = sum(1 for l in f if "KKT-ACCEPTED" in l)
+        if acc == 0:
             raise vlib.ToolError("MC_SmoKkt(%s): the KKT relation accepts no grid candidate (vacuous)" % mode)
+        ctx.extra.setdefault("kkt_grid_candidates_accepted", {})[mode] = acc
 
 
 def _rat(r, lo, hi):
@@ -154,9 +156,8 @@ def run(ctx):
     consts["Fams"] = FAMS
     cases = vlib.tlc_gen(ctx, "Gen_Smo", {"constants": consts, "invariants": ["Emit"]})
     ctx.exhaustive = False
-    if ctx.quick:
-        cases = thin(cases, t["stride"])
-    else:
+    cases = thin(cases, t["stride"])
+    if not ctx.quick:
         cases += random_cases(ctx, 1200)
     vlib.number(cases)
     ctx.cases = len(cases)
@@ -164,9 +165,9 @@ def run(ctx):
     ctx.nontrivial = summarize(ctx, traces)
     vlib.sample(ctx, [tr for tr in traces if tr["kind"] == "csvc" and len(tr["inp"]["x"]) == 4 and tr["inp"]["shr"]][:1]
                 + [tr for tr in traces if tr["kind"] == "esvr" and len(tr["inp"]["x"]) == 3][:1])
-    vlib.validate_with_findings(ctx, "Trace_Smo", traces, constants=TRACE_CONST, chunk=4000)
+    vlib.validate_with_findings(ctx, "Trace_Smo", traces, constants=TRACE_CONST, chunk=6000)
     ctx.rule = ("cases = TLC-enumerated training problems (Gen_Smo): all sorted multisets of labelled 1-D lattice points of the tier's sizes "
-                "(quick: every stride-th per kind) x kernel x box parameters x shrinking, plus deterministic pseudo-random 2-D sets "
+                "(every stride-th per kind, stride per tier) x kernel x box parameters x shrinking, plus deterministic pseudo-random 2-D sets "
                 "(12..60 points) [+ seeded random sets n<=80 in the thorough tier]; non-trivial = the solver needed more iterations than it has "
                 "variables, i.e. the shrinking heuristic (every min(n,1000) iterations) ran in the cases with shrinking on")
     ctx.trusted = ["TLC + CommunityModules Json", "Elem tables (self-checked by MC_Elem)",
